@@ -1,5 +1,6 @@
 """C13 - reads and writes report per-characteristic outcomes faithfully (DESIGN 4/C13).  IP layers here; CoAP and BLE layers are
 added by props/c13_coap.py / props/c13_ble.py when their simulations are present."""
+import asyncio
 import copy
 import itertools
 import json
@@ -255,6 +256,79 @@ def run_write(case, R):
 HTTP_LINES = [[200, "OK"], [500, "Internal Server Error"], [400, "Bad Request"], [422, "Unprocessable Entity"], [503, "Service Unavailable"], [207, "Multi-Status"]]
 
 
+def run_write_after_late_reply(case, R):
+    """Write A is accepted, but the accessory's 204 arrives only after the caller has given up (30 s reply timer).  The caller then issues write B,
+    which the accessory rejects.  B must be reported as rejected (or fail) and no listener may be told B's value - A's late 204 is not B's answer."""
+    delay, status = case["delay"], case["status"]
+    a_ids, b_ids = [tuple(x) for x in case["a"]], [tuple(x) for x in case["b"]]
+    R.nt(delay > 30)
+    R.cls("write:ip-late-reply", "late" if delay > 30 else "in-time")
+    what = f"write {a_ids} answered 204 after {delay}s, then write {b_ids} rejected with {status}"
+
+    async def main(loop):
+        w = IpWorld(loop)
+        n = [0]
+        first = {}
+
+        def hook(conn, req):
+            if req.method == "PUT" and req.target == "/characteristics":
+                payload = json.loads(req.body)["characteristics"]
+                if all("value" in i for i in payload):
+                    n[0] += 1
+                    if n[0] == 1:
+                        first["at"], first["conn"] = loop.time() + delay, conn
+                        conn.send_http(204, "No Content", delay=delay)
+                    else:
+                        # an accessory answers the requests of one connection in the order it got them: never before A's reply is out
+                        wait = max(0.0, first["at"] - loop.time()) + 0.25 if conn is first.get("conn") else 0.0
+                        chars = [{"aid": i["aid"], "iid": i["iid"], "status": status} for i in payload]
+                        conn.send_http(207, "Multi-Status", json.dumps({"characteristics": chars}, separators=(",", ":")).encode(), delay=wait)
+                    return True
+            return False
+        w.acc.on_request = hook
+        p = w.pairing
+        logs = attach_listeners(p)
+        try:
+            await p.list_accessories_and_characteristics()
+            try:
+                await p.put_characteristics([(a, i, True if (a, i) in ((1, 9), (2, 10), (1, 3)) else 5) for a, i in a_ids])
+            except Exception:  # noqa: BLE001
+                R.cls("first-write-failed")
+            await asyncio.sleep(case.get("gap", 0))
+            for l_ in logs:
+                l_.clear()
+            try:
+                res = await p.put_characteristics([(a, i, False if (a, i) in ((1, 9), (2, 10), (1, 3)) else 6) for a, i in b_ids])
+            except Exception as e:  # noqa: BLE001
+                R.cls("second-write-failed")
+                if not type(e).__module__.startswith("aiohomekit"):
+                    R.fail("C13.write-raises", f"{what}: {type(e).__name__}: {e}", exc=type(e).__name__)
+                res = None
+            await vtime.settle(loop)
+            told = sorted(k_ for ev in logs[0] for k_ in ev)
+            if res is not None:
+                bad = [k_ for k_ in b_ids if not res.get(k_, {}).get("status")]
+                if bad:
+                    R.fail("C13.rejected-reported-as-written", f"{what}: result {res!r:.200}", code="late-reply")
+                    return
+            if told:
+                R.fail("C13.rejected-notified", f"{what}: listeners were told about {told}", code="late-reply")
+        finally:
+            try:
+                await p.close()
+            finally:
+                w.restore()
+    vtime.run(main)
+
+
+def enum_late_reply(tier):
+    for delay in (0, 29, 30.5, 31, 45, 100):
+        for gap in (0, 1, 20, 40):
+            for a, b in (([(1, 9)], [(1, 9)]), ([(1, 9)], [(1, 11)]), ([(1, 9), (1, 11)], [(2, 10)])):
+                for status in (-70410, -70402):
+                    yield {"delay": delay, "gap": gap, "a": a, "b": b, "status": status}
+
+
 def enum_write(tier):
     idsets = [[(1, 9)], [(1, 9), (1, 11)], [(1, 9), (2, 10), (1, 11)]]
     for ids in idsets:
@@ -296,6 +370,8 @@ LAYERS = [
     Layer("ip-write-table", run_write, enumerate=enum_write, exhaustive=True,
           space="17 statuses ^ n for 1, 2 and 3 written characteristics (quick: every 4th vector for n = 3) through put_characteristics; 204/207; malformed entries",
           min_nontrivial=400),
+    Layer("ip-write-after-late-reply", run_write_after_late_reply, enumerate=enum_late_reply, exhaustive=True,
+          space="6 reply delays around the 30 s timer x 4 pauses before the next write x 3 id pairs x 2 statuses"),
     Layer("ip-write-gen", run_write, strategy=write_cases, n={"quick": 6000, "thorough": 80000}, min_nontrivial=300),
 ]
 from props.ble_layers import C13_LAYERS as _BLE  # noqa: E402
